@@ -136,7 +136,7 @@ class MNewton:
             def d2f(x):
                 return self.ctx.diff(df, x)
         else:
-            d2f = kwargs['df']
+            d2f = kwargs['d2f']
         self.d2f = d2f
 
     def __iter__(self):
@@ -193,7 +193,7 @@ class Halley:
             def d2f(x):
                 return self.ctx.diff(df, x)
         else:
-            d2f = kwargs['df']
+            d2f = kwargs['d2f']
         self.d2f = d2f
 
     def __iter__(self):
